@@ -120,6 +120,7 @@ def run_case(case, bus, ex):
     name, D, N, order, v = case["cls"], case["D"], case["N"], case["order"], case["v"]
     it = zoo.make_intent(rng, name, D, N, variant=v, order=order)
     zoo.vary_contour(rng, it, prob=0.2)
+    zoo.vary_dealiasing(rng, it, prob=0.35)
     st = zoo.build(ex, it)
     C = zoo.channels(it)
     flags = tuple(sorted((k, x) for k, x in it["kw"].items() if isinstance(x, bool)))
